@@ -201,4 +201,153 @@ theorem msa_final {al : List Nat → List Nat → PTrace} {g : Nat} {seqs : List
     Option.some.injEq] at this
   rw [this]
 
+/-! ### the validity checker of the driver is the hypothesis of the theorems -/
+
+theorem globalValidB_iff (tr : PTrace) (w1 w2 : Nat) : globalValidB tr w1 w2 = true ↔ GlobalValid tr w1 w2 := by
+  unfold globalValidB GlobalValid
+  simp only [Bool.and_eq_true, beq_iff_eq, List.all_eq_true, Bool.or_eq_true]
+  constructor
+  · rintro ⟨⟨h1, h2⟩, h3⟩
+    refine ⟨h1, h2, fun c hc hcc => ?_⟩
+    have := h3 c hc
+    subst hcc
+    simp at this
+  · rintro ⟨h1, h2, h3⟩
+    refine ⟨⟨h1, h2⟩, fun c hc => ?_⟩
+    obtain ⟨a, b⟩ := c
+    cases a <;> cases b <;> simp
+    exact h3 _ hc rfl
+
+theorem allValidB_iff (al : List Nat → List Nat → PTrace) (g : Nat) (seqs : List Row) :
+    ∀ tree : GTree, allValidB al g seqs tree = true ↔ AllValid al g seqs tree := by
+  intro tree
+  induction tree with
+  | leaf i => simp [allValidB, AllValid]
+  | node l r ihl ihr =>
+    simp only [allValidB, AllValid, Bool.and_eq_true, ihl, ihr]
+    constructor
+    · rintro ⟨⟨h1, h2⟩, h3⟩
+      refine ⟨h1, h2, ?_⟩
+      intro o1 r1 o2 r2 p1 p2
+      rw [p1, p2] at h3
+      exact (globalValidB_iff _ _ _).1 h3
+    · rintro ⟨h1, h2, h3⟩
+      refine ⟨⟨h1, h2⟩, ?_⟩
+      cases p1 : progressive al g seqs l with
+      | error e => rfl
+      | ok x =>
+        cases p2 : progressive al g seqs r with
+        | error e => rfl
+        | ok y =>
+          obtain ⟨o1, r1⟩ := x
+          obtain ⟨o2, r2⟩ := y
+          exact (globalValidB_iff _ _ _).2 (h3 o1 r1 o2 r2 p1 p2)
+
+/-! ### the guide tree: order = leaf list, whatever the aligner returns -/
+
+theorem mapE_length {α β : Type} {f : α → Except Err β} {l : List α} {r : List β} (h : mapE f l = .ok r) :
+    r.length = l.length := (mapE_ok_forall₂ f l r h).length_eq.symm
+
+theorem progressive_order (al : List Nat → List Nat → PTrace) (g : Nat) (seqs : List Row) :
+    ∀ (tree : GTree) (o : List Nat) (rows : List Row), progressive al g seqs tree = .ok (o, rows) →
+      o = tree.leaves ∧ rows.length = o.length := by
+  intro tree
+  induction tree with
+  | leaf i =>
+    intro o rows h
+    simp only [progressive] at h
+    split at h
+    · simp at h; obtain ⟨rfl, rfl⟩ := h; exact ⟨rfl, rfl⟩
+    · cases h
+  | node l r ihl ihr =>
+    intro o rows h
+    simp only [progressive] at h
+    split at h
+    · cases h
+    · next o1 r1 p1 =>
+      split at h
+      · cases h
+      · next o2 r2 p2 =>
+        split at h
+        · cases h
+        · next rows' hm =>
+          simp at h
+          obtain ⟨rfl, rfl⟩ := h
+          obtain ⟨e1, l1⟩ := ihl o1 r1 p1
+          obtain ⟨e2, l2⟩ := ihr o2 r2 p2
+          refine ⟨by simp [GTree.leaves, e1, e2], ?_⟩
+          unfold mergeGroups at hm
+          split at hm
+          · cases hm
+          · next a ha =>
+            split at hm
+            · cases hm
+            · next b hb =>
+              simp at hm; subst hm
+              simp [mapE_length ha, mapE_length hb, l1, l2]
+
+theorem foldl_node_leaves (rest : List GTree) : ∀ acc : GTree,
+    (rest.foldl GTree.node acc).leaves = acc.leaves ++ rest.flatMap GTree.leaves := by
+  induction rest with
+  | nil => intro acc; simp
+  | cons c rest ih => intro acc; simp [ih, GTree.leaves, List.append_assoc]
+
+mutual
+/-- `as_binary` keeps the leaves, in order -/
+theorem asBinary_leaves : ∀ (m : MTree) (b : GTree), asBinary m = some b → b.leaves = m.leaves
+  | .leaf i, b, h => by simp [asBinary] at h; subst h; simp [GTree.leaves, MTree.leaves]
+  | .node cs, b, h => by
+    simp only [asBinary] at h
+    cases hl : asBinaryList cs with
+    | none => simp [hl] at h
+    | some bs =>
+      have := asBinaryList_leaves cs bs hl
+      rw [hl] at h
+      simp only [MTree.leaves]
+      rw [← this]
+      match bs, h with
+      | [c], h => simp at h; subst h; simp
+      | c1 :: c2 :: rest, h =>
+        simp at h; subst h
+        simp [foldl_node_leaves, GTree.leaves, List.append_assoc]
+theorem asBinaryList_leaves : ∀ (cs : List MTree) (bs : List GTree), asBinaryList cs = some bs →
+    bs.flatMap GTree.leaves = MTree.leavesList cs
+  | [], bs, h => by simp [asBinaryList] at h; subst h; simp [MTree.leavesList]
+  | c :: cs, bs, h => by
+    simp only [asBinaryList] at h
+    cases h1 : asBinary c with
+    | none => simp [h1] at h
+    | some b =>
+      cases h2 : asBinaryList cs with
+      | none => simp [h1, h2] at h
+      | some bs' =>
+        simp [h1, h2] at h; subst h
+        simp [MTree.leavesList, asBinary_leaves c b h1, asBinaryList_leaves cs bs' h2]
+end
+
+/-! ### the distance formula: when it has no value -/
+
+theorem distOutcome_spec (d : DistIn) :
+    (distOutcome d = .belowRandom ↔ d.num < 0) ∧
+    (distOutcome d = .zeroDivision ↔ 0 ≤ d.num ∧ d.den = 0) ∧
+    (distOutcome d = .infinite ↔ d.num = 0 ∧ d.den ≠ 0) ∧
+    (distOutcome d = .finite ↔ 0 < d.num ∧ 0 < d.den) := by
+  unfold distOutcome
+  refine ⟨?_, ?_, ?_, ?_⟩ <;> (repeat' split) <;> simp <;> omega
+
+/-- the formula has a value exactly when `S_max ≠ S_rand` and `S − S_rand`, `S_max − S_rand` have the same strict sign; for an
+optimal score (`S ≤ S_max`) that is: `S > S_rand`.  The code returns a distance in exactly these cases when `S ≥ S_rand`. -/
+theorem distDefined_iff (d : DistIn) (hle : d.num ≤ d.den) :
+    (DistDefined d ↔ (0 < d.num ∨ d.den < 0)) ∧ (0 ≤ d.num → (DistDefined d ↔ distOutcome d = .finite)) := by
+  constructor
+  · unfold DistDefined; constructor
+    · rintro ⟨_, h | h⟩ <;> omega
+    · intro h; constructor <;> omega
+  · intro h0
+    rw [(distOutcome_spec d).2.2.2]
+    unfold DistDefined
+    constructor
+    · rintro ⟨_, h | h⟩ <;> omega
+    · intro h; exact ⟨by omega, Or.inl h⟩
+
 end BiotiteModel.C11
